@@ -15,18 +15,27 @@ CHECKS = {
         text="Executable Coq model of ComposeInfo serialize/deserialize (header, compose, release, base product, variant forest "
              "flattened to the uid-keyed mapping with per-variant child id lists, 14 path categories restricted to the variant's "
              "arches, layered-product releases), driven by the regenerated validator tables. Proved: C01_header_roundtrip, "
-             "C01_compose_roundtrip (incl. the 'final only next to a label' normalisation). The forest-level statement is decided "
+             "C01_compose_roundtrip (incl. the 'final only next to a label' normalisation), C01_release_roundtrip (release type "
+             "case-folding is the identity on valid releases: every entry of the regenerated RELEASE_TYPES is lower case), "
+             "C01_base_product_roundtrip. The forest-level statement is decided "
              "by the roundtrip_ci correspondence: every generated description is written, read and written again by the real "
              "library and by the model, the text is compared byte for byte and an implementation-side oracle compares every "
              "documented field, the parent/child structure and all paths with the documented normalisations.",
-        note="Partial: load_ci (dump_ci x) = Ok (norm x) over whole forests is not yet a Coq theorem; header and compose section are.",
+        note="Partial: load_ci (dump_ci x) = Ok (norm x) over whole forests and path tables is not a Coq theorem; header, compose, "
+             "release and base-product sections are; C07_loaded_composeinfo_is_valid covers validity of every re-read variant.",
         design="DESIGN.md section 6 C01"),
     "C02": dict(
         text="Coq theorems C02_image_roundtrip / C02_image_roundtrip_fields (every image the library agrees to write is read back "
              "with all fifteen attributes unchanged; the proof runs the regenerated Image validators symbolically), "
-             "C02_compose_roundtrip. Manifest level (cell placement, no image gained or lost, byte-identical second write): the "
-             "roundtrip_images correspondence + implementation-side oracle over manifests built by add histories.",
-        note="Partial: the whole-manifest statement (load (dump m) = sort_cells m for m reachable by add) is not yet a Coq theorem.",
+             "C02_compose_roundtrip, and at manifest level C02_manifest_roundtrip (for every well-formed manifest the reader returns, "
+             "cell by cell, exactly the manifest's images ordered by path - the order in which they are written -, cells without "
+             "images are not written, the compose section is intact), C02_manifest_second_write (writing the re-read manifest "
+             "gives the same document), C02_reachable_manifests_are_well_formed (the hypotheses - valid normal images, no identity "
+             "collision, binary arch keys, duplicate-free keys - hold for every manifest built by any add history), "
+             "C02_cells_keep_their_images. Tie: the roundtrip_images correspondence (text byte for byte) + implementation-side "
+             "oracle over manifests built by add histories, incl. shared objects and different images sharing a path string.",
+        note="The theorems start at the parsed JSON tree; json text parsing/printing is CPython's (print_json is a model of the "
+             "writer validated on every case).",
         design="DESIGN.md section 6 C02"),
     "C03": dict(
         text="Coq theorems C03_{rpms,modules,extra}_roundtrip: for every normal compose section and ANY payload mapping (hence "
@@ -78,12 +87,15 @@ CHECKS = {
     "C07": dict(
         text="Coq theorems about the modelled readers: C07_header_gate (from 1.1 on a document naming another metadata type is "
              "rejected with ValueError), C07_header_malformed_version, C07_loaded_compose_is_valid (whatever a successful load "
-             "returns has passed the regenerated Compose validators). Tie: valid current-version documents of the five JSON "
+             "returns has passed the regenerated Compose validators), C07_loaded_images_are_valid / C07_loaded_images_are_writable "
+             "(every image of a loaded manifest passes the Image validators, hence the manifest can be written), "
+             "C07_loaded_composeinfo_is_valid (compose, release, base product and EVERY variant of the re-read forest passed its "
+             "validators in the context of its parent). Tie: valid current-version documents of the five JSON "
              "formats and .treeinfo texts, each with one corruption (other header type, mangled version, deleted section or "
              "required key, one value outside its documented domain at any position) are loaded by the real library and by the "
              "model readers; accepted-vs-rejected is compared and, when accepted, the loaded object must be writable.",
-        note="Partial: 'load d = Ok x -> Valid x' is proved for the compose section and the header; for the other sections it is "
-             "decided by the load correspondence. Reader coercions (bool(), int(), lower()) are part of the modelled reader (O10).",
+        note="Partial: 'load d = Ok x -> Valid x' is proved for images manifests and composeinfo; for treeinfo it is "
+             "decided by the load correspondence (rpms/modules/extra files have no per-entry validators). Reader coercions (bool(), int(), lower()) are part of the modelled reader (O10).",
         design="DESIGN.md section 6 C07"),
     "C08": dict(
         text="Coq theorems about the JSON writer model: C08_json_same_content (two documents whose mappings have the same "
@@ -126,7 +138,8 @@ CHECKS = {
              "VariantBase.add line by line, with the Variant validators taken from the regenerated inventory. Coq theorems: "
              "C11_add_refused_noop (a refused add leaves the WHOLE graph unchanged), C11_add_accepted_child (an accepted add has "
              "passed UID alignment and parent-arch validation with its parent set to the container and is not an ancestor), "
-             "C11_get_variants_sound (arch and type filters hold at every depth), C11_get_variants_all_level, and the invariant over ALL "
+             "C11_get_variants_sound (arch and type filters hold at every depth), C11_get_variants_all_level, "
+             "C11_get_variants_ordered_by_uid, and the invariant over ALL "
              "histories C11_reach_edge_invariant / C11_add_preserves_edge_invariant (in every graph reachable from fresh objects by any "
              "sequence of accepted and refused adds, re-adds and re-parenting included, each child pointing back to its parent "
              "variant has UID = parent UID-own id and architectures within the parent's). Tie: histories of "
@@ -171,7 +184,8 @@ CHECKS = {
              "sound+complete matcher semantics), C15_decode (decode(encode) = (date,type,respin) for every release/base-product/"
              "variant shape and all respins < 10^7), C15_decode_refuted (the stated bound 10^8 is false of the code: finding K1), "
              "C15_tables_agree / C15_suffix_table over the regenerated encoder/decoder tables, C15_unknown_suffix. Decoder "
-             "model (last 8-digit window) tied to get_date_type_respin by differential runs.",
+             "model (last 8-digit window) tied to get_date_type_respin by differential runs, and to the regenerated pattern by a second "
+             "model entry that runs the verified matcher on it (three-way comparison).",
         note="The decoder is a hand model of what the pattern denotes; its tie to the regex is the differential run (ids, junk "
              "strings with newlines and digit runs). Known finding K1 (8-digit respins).",
         design="DESIGN.md section 6 C15"),
